@@ -56,7 +56,7 @@ func init() {
 	register(&Property{
 		Enum: enumFoldPoolShapes(func(g *GoCase) any { return g }),
 		ID:   "C12",
-		Rule: "rapid draws a Go type description (all scalar kinds, slices, string maps, pointers depth 0..3, interfaces, nested structs with tags drawn from {none, name, name+omitempty, omitempty, -, omit, inline/squash, padded, illegal combinations}, pool types incl. Folder/IsZeroer/registered folders/embedded/named types, unsupported kinds) materialised with reflect.StructOf, and a value of it (nil/empty/non-empty nillables, interfaces holding generic data, structs, pointers); oracle = independent executable model of the documented tag rules (gomodel.FoldModel) compared at value level; refusal cases must be errors; non-trivial = the type has at least one tag option or the case is a refusal; distinct by case hash",
+		Rule: "rapid draws a Go type description (all scalar kinds, slices, string maps, pointers depth 0..3, interfaces, nested structs with tags drawn from {none, name, name+omitempty, omitempty, -, omit, inline/squash, padded, illegal combinations}, blanks around tag names and options; pool types incl. Folder/IsZeroer (structs and named int/float/bool/uint8 whose IsZero is not the Go zero test, value and pointer receivers)/registered folders/embedded/named types, unsupported kinds) materialised with reflect.StructOf, and a value of it (nil/empty/non-empty nillables, interfaces holding generic data, structs, pointers, structs that inline an interface again); deterministic part: every custom-folder pool type in every position, and an omitempty matrix (6 IsZeroer types x IsZero true/false x {value, pointer, pointer to pointer, interface holding value / pointer} x 3 tags); oracle = independent executable model of the documented tag rules (gomodel.FoldModel) compared at value level; refusal cases must be errors; non-trivial = the type has at least one tag option or the case is a refusal; distinct by case hash",
 		New:  func() any { return &GoCase{} },
 		Draw: func(t *rapid.T) any {
 			return drawGoCase(t, gomodel.TypeCfg{Tags: true, Bad: rapid.IntRange(0, 5).Draw(t, "bad") == 5, Pool: true, FoldOnly: true, Arrays: true, Recursive: !genExcludedRecursive()}, gomodel.ValCfg{})
